@@ -396,6 +396,18 @@ Section Schedule.
     unfold pfasst_iteration. apply Forall_app; split; [|apply iteration_body_in_bounds].
     apply for_steps_inb; intros p; repeat constructor.
   Qed.
+  Lemma predict_ops_in_bounds P pt : Forall inb (predict_ops P L pt).
+  Proof.
+    destruct pt; cbn [predict_ops]; [constructor | apply for_steps_inb; intros p; repeat constructor |].
+    unfold burnin_ops. repeat (apply Forall_app; split).
+    - apply for_steps_inb; intros p. apply Forall_forall. intros o Ho. apply in_map_iff in Ho as (l & <- & Hl).
+      apply in_seq in Hl. cbn. lia.
+    - apply Forall_flat_map. apply Forall_forall. intros q _. apply Forall_app; split;
+        apply Forall_flat_map; apply Forall_forall; intros p _; repeat constructor.
+    - apply for_steps_inb; intros p. apply Forall_app; split; [|repeat constructor].
+      apply Forall_forall. intros o Ho. apply in_map_iff in Ho as (l & <- & Hl). apply in_rev, in_seq in Hl. cbn. lia.
+    - apply for_steps_inb; intros p; repeat constructor.
+  Qed.
 End Schedule.
 
 (* validity / sent flags evolve independently of the numerical data: they can be computed on booleans alone *)
